@@ -105,6 +105,8 @@ func enumFormat(e *common.Enum) {
 		styles = styleSingles
 		modeSets = subsets(b, 2, false)
 	}
+	// a file that is named but does not exist, alone and mixed (default style)
+	jobs = append(jobs, job{styleSingles[0], [][]file{{missingFile}, {b[1], missingFile}, {missingFile, b[0], b[3]}}})
 	for _, j := range jobs {
 		for _, fs := range j.sets {
 			st, fs := j.st, fs
@@ -174,7 +176,7 @@ func formatRelation(c *common.Ctx, st []string, files []file) {
 		n, _ := sb.read(f.Name)
 		newc[f.Name] = n
 		if vs[i] == reject {
-			if d := sb.touched(f.Name, f.Content); d != "" {
+			if d := sb.touchedFile(f); d != "" {
 				c.Fail("inplace-touched-failed-file:format", fmt.Sprintf("format -i modified %s (%s) although the library rejects it: %s\n%s", f.Name, f.Class, d, d3))
 			}
 			continue
@@ -354,7 +356,13 @@ func formatModes(c *common.Ctx, mode []string, files []file) {
 	}
 	sb.put(files)
 	r := sb.run(nil, nil, args...)
-	cls := strings.Join(mode, "")
+	var fl []string
+	for _, m := range mode {
+		if strings.HasPrefix(m, "-") {
+			fl = append(fl, strings.TrimLeft(m, "-"))
+		}
+	}
+	cls := strings.Join(fl, "+") // e.g. "i+check", "check+o"
 	switch {
 	case has("--check") && !has("-i"):
 		untouched(c, sb, files, "modified-by-check-mode:format-check", d)
@@ -376,7 +384,7 @@ func formatModes(c *common.Ctx, mode []string, files []file) {
 	if has("-i") {
 		for i, f := range files {
 			if vs[i] == reject {
-				if t := sb.touched(f.Name, f.Content); t != "" {
+				if t := sb.touchedFile(f); t != "" {
 					c.Fail("inplace-touched-failed-file:format", fmt.Sprintf("format %s modified %s (%s) although the library rejects it: %s\n%s", strings.Join(mode, " "), f.Name, f.Class, t, d))
 				}
 			}
